@@ -62,12 +62,16 @@ type Repo struct {
 	// BrokenDefs (only with Subinclude): "syntax" = the subincluded file does not parse,
 	// "build" = the target producing it fails to build. Either way no package can be parsed.
 	BrokenDefs string `json:",omitempty"`
+	// DefsChain (only with Subinclude): the subincluded file is not a source file but the output of
+	// the modelled genrule //defs:defs (Cmd "defs"), which may itself depend on other (slow) targets;
+	// packages "defs" and "slow" do not subinclude anything themselves.
+	DefsChain bool `json:",omitempty"`
 }
 
 // Clone deep-copies the repository model.
 func (r *Repo) Clone() *Repo {
 	c := &Repo{Pkgs: append([]string{}, r.Pkgs...), Files: append([]RFile{}, r.Files...), Config: r.Config,
-		BrokenPkgs: append([]string{}, r.BrokenPkgs...), Subinclude: r.Subinclude, BrokenDefs: r.BrokenDefs}
+		BrokenPkgs: append([]string{}, r.BrokenPkgs...), Subinclude: r.Subinclude, BrokenDefs: r.BrokenDefs, DefsChain: r.DefsChain}
 	for _, t := range r.Targets {
 		tt := *t
 		tt.Srcs = append([]RSrc{}, t.Srcs...)
@@ -323,6 +327,8 @@ func (r *Repo) Eval() (outs map[string][]OutEnt, ok map[string]bool) {
 			d := digest(ins)
 			var es []OutEnt
 			switch t.Cmd {
+			case "defs":
+				es = []OutEnt{{t.Outs[0], &Node{Name: t.Outs[0], Content: DefsText}}}
 			case "strip":
 				es = []OutEnt{{t.Outs[0], &Node{Name: t.Outs[0], Content: stripComments(d)}}}
 			case "count":
@@ -430,10 +436,21 @@ const shLib = `L(){ printf '%s %s\n' "$1" '@LABEL@' >> "${TMP_DIR%%/plz-out/tmp/
 	`else printf 'F %s\n' "$g"; cat "$g"; printf '\n'; fi; done; done; }; ` +
 	`K(){ D | LC_ALL=C tr -c 'a-z0-9' '_' | tail -c 8; }; `
 
+// DefsText is the build_defs file every package subincludes when Repo.Subinclude is set.
+const DefsText = "def vgenrule(name:str, srcs:list, outs:list, cmd:str, visibility:list, requires:list=None, provides:dict=None):\n    return genrule(name=name, srcs=srcs, outs=outs, cmd=cmd, visibility=visibility, requires=requires, provides=provides)\n"
+
+// plainPkg reports whether a package defines its rules directly (no subinclude): the packages that
+// produce the subincluded file itself.
+func (r *Repo) plainPkg(pkg string) bool {
+	return !r.Subinclude || (r.DefsChain && (pkg == "defs" || pkg == "slow"))
+}
+
 // ShellCmd renders the command of a genrule.
 func (t *RTarget) ShellCmd() string {
 	var body string
 	switch t.Cmd {
+	case "defs":
+		body = `D > /dev/null; printf '%s' '` + DefsText + `' > "$OUT"`
 	case "strip":
 		body = `D | { grep -v '^#' || true; } > "$OUT"`
 	case "count":
@@ -512,7 +529,7 @@ func (r *Repo) RenderTarget(t *RTarget) string {
 		extra += ", provides={" + strings.Join(kv, ", ") + "}"
 	}
 	fn := "genrule"
-	if r.Subinclude {
+	if !r.plainPkg(t.Pkg) {
 		fn = "vgenrule"
 	}
 	return fmt.Sprintf(fn+"(name=%s, srcs=%s, outs=%s, cmd=%s, visibility=[\"PUBLIC\"]%s)\n", PyQuote(t.Name), srcExpr, pyList(t.Outs), PyQuote(t.ShellCmd()), extra)
@@ -521,7 +538,7 @@ func (r *Repo) RenderTarget(t *RTarget) string {
 // RenderBuild renders the BUILD file of a package.
 func (r *Repo) RenderBuild(pkg string) string {
 	var b strings.Builder
-	if r.Subinclude {
+	if !r.plainPkg(pkg) {
 		b.WriteString("subinclude(\"//defs:defs\")\n")
 	}
 	for _, t := range r.Targets {
@@ -546,7 +563,7 @@ func (r *Repo) TreeFiles() map[string]string {
 	for _, f := range r.Files {
 		m[filepath.Join(f.Pkg, f.Path)] = f.Content
 	}
-	if r.Subinclude {
+	if r.Subinclude && !r.DefsChain {
 		defs := "def vgenrule(name:str, srcs:list, outs:list, cmd:str, visibility:list, requires:list=None, provides:dict=None):\n    return genrule(name=name, srcs=srcs, outs=outs, cmd=cmd, visibility=visibility, requires=requires, provides=provides)\n"
 		switch r.BrokenDefs {
 		case "syntax":
